@@ -123,6 +123,7 @@ type ContractSet struct {
 	Files  []string
 	IfaceContracts map[string]*Contract // "gedcom.Node.AddNode"
 	Frames []*FrameSpec
+	PkgStates []*PkgStateSpec
 	FieldGroups map[string][]string
 }
 
@@ -225,6 +226,27 @@ func (cs *ContractSet) LoadFile(file string) error {
 			curFrame = &FrameSpec{Key: key, File: where}
 			cs.Frames = append(cs.Frames, curFrame)
 			cur = nil
+			continue
+		}
+		if word == "package-state" {
+			// package-state props C19 [allows a, b]
+			ps := &PkgStateSpec{Pkg: pkg, File: where}
+			f := strings.Fields(rest)
+			mode := ""
+			for _, w := range f {
+				switch w {
+				case "props", "allows":
+					mode = w
+				default:
+					w = strings.Trim(w, ",")
+					if mode == "props" {
+						ps.Props = append(ps.Props, w)
+					} else if mode == "allows" && w != "" {
+						ps.Allows = append(ps.Allows, w)
+					}
+				}
+			}
+			cs.PkgStates = append(cs.PkgStates, ps)
 			continue
 		}
 		if word == "fieldgroup" {
